@@ -70,17 +70,18 @@ type bkRun struct {
 	err   error
 }
 
-var bkCache = map[string]*bkRun{}
-
 // bk runs (once) the path enumeration of Type.Method with the backend policy.
 func (c *Ctx) bk(b BK, fn string, inlineTrait bool) *bkRun {
 	key := fmt.Sprintf("%s|%v", fn, inlineTrait)
-	if r, ok := bkCache[key]; ok {
+	if c.bkCache == nil {
+		c.bkCache = map[string]*bkRun{}
+	}
+	if r, ok := c.bkCache[key]; ok {
 		return r
 	}
 	e, paths, f, err := c.runFunc(fn, backendPolicy(b, inlineTrait))
 	r := &bkRun{e, paths, f, err}
-	bkCache[key] = r
+	c.bkCache[key] = r
 	return r
 }
 
